@@ -972,6 +972,7 @@ package ucfg
 //@ tagged-only C14 C12
 //@ requires c != nil && c.fields != nil
 //@ requires forall k string :: has(c.fields.d, k) ==> c.fields.d[k] != nil
+//@ requires len(c.fields.a) + len(c.fields.d) <= 9223372036854775807
 //@ ensures [typed @C14] isTyped(err)
 //@ ensures [all @C12] name == "" ==> err == nil && n == len(old(c.fields.a)) + len(old(c.fields.d))
 //@ ensures [missing @C12] name != "" && !old(has(c.fields.d, name)) ==> err != nil
